@@ -263,6 +263,10 @@ class WorkerRun:
                     return "after-eager"
                 raise ValueError(kind)
             finally:
+                if st.get("cleanup"):
+                    # an actor that does not end the instant it is cancelled (awaits in its finally / __aexit__): it is in
+                    # progress until its clean-up is over
+                    await asyncio.sleep(st["cleanup"] / 1e6)
                 run.running -= 1
                 run.ev("actor_end", id=mid, k=k)
 
